@@ -9,12 +9,12 @@ echo "== build with patch" > $log
 cmake --build _b -j6 -- -k 0 >> $log 2>&1
 tests=$(paste -sd'|' /verif/tools/stable_tests.txt | sed 's/[][().+*]/\\&/g')
 echo "== baseline tests with patch" >> $log
-ctest --test-dir _b -j4 --timeout 600 -R "^($tests)\$" 2>&1 | tail -8 >> $log
+ctest --test-dir _b -j4 --timeout 1500 -R "^($tests)\$" 2>&1 | tail -8 >> $log
 echo "== demo WITH patch (expect non-zero)" >> $log
-( cd $sd && timeout 600 sh ./build_and_run.sh ) >> $log 2>&1; echo "demo_with_patch_exit=$?" >> $log
+( cd $sd && timeout 900 bash ./build_and_run.sh ) >> $log 2>&1; echo "demo_with_patch_exit=$?" >> $log
 git checkout -q -- .
 echo "== rebuild clean" >> $log
 cmake --build _b -j6 -- -k 0 >> $log 2>&1
 echo "== demo WITHOUT patch (expect zero)" >> $log
-( cd $sd && timeout 600 sh ./build_and_run.sh ) >> $log 2>&1; echo "demo_without_patch_exit=$?" >> $log
+( cd $sd && timeout 900 bash ./build_and_run.sh ) >> $log 2>&1; echo "demo_without_patch_exit=$?" >> $log
 grep -E "tests passed|tests failed|demo_with" $log
